@@ -1,5 +1,5 @@
-pub mod c01;
-
+//! Workloads: one file per driver (`src/w/<name>.rs` with `pub fn run(ctx: &Ctx) -> serde_json::Value`),
+//! registered automatically by build.rs. `drive <NAME>` runs `<name>::run`.
 #[derive(Clone, Copy, PartialEq, Eq, Debug)]
 pub enum Tier { Quick, Thorough }
 
@@ -13,3 +13,4 @@ impl Ctx {
     /// pick by tier
     pub fn t<T>(&self, q: T, th: T) -> T { if self.quick() { q } else { th } }
 }
+include!(concat!(env!("OUT_DIR"), "/workloads.rs"));
